@@ -1227,3 +1227,48 @@ func (env *SpecEnv) evalQuantIn(x *SExpr) *SV {
 	}
 	return boolSV(fmt.Sprintf("(%s ((%s %s)) %s)", q, kv, ks, bt))
 }
+
+type namedTerm struct {
+	name string
+	term string
+	tags []string
+}
+
+// evalSplit evaluates a boolean spec expression into separately provable conjuncts
+// (top-level && and lockinv(...) are split; the conjunction of the parts is the whole).
+func (env *SpecEnv) evalSplit(x *SExpr) []namedTerm {
+	if x.Op == "bin" && x.Name == "&&" {
+		return append(env.evalSplit(x.Args[0]), env.evalSplit(x.Args[1])...)
+	}
+	if x.Op == "call" && x.Args[0].Op == "id" && x.Args[0].Name == "lockinv" && len(x.Args) >= 2 {
+		e := env.e
+		a := env.eval(x.Args[1])
+		if a != nil && a.V.Loc != nil {
+			class := lockClassOf(a.V.Loc)
+			only := map[string]bool{}
+			for _, y := range x.Args[2:] {
+				if y.Op == "str" {
+					only[y.Name] = true
+				}
+			}
+			var out []namedTerm
+			for _, li := range e.w.spec.LockInvs[class] {
+				if len(only) > 0 && !only[li.Name] {
+					continue
+				}
+				out = append(out, namedTerm{name: li.Name, term: e.evalClauseOn(li.Clause, env.state(), env.old, a.V.Loc.Ref, env.fx), tags: li.Clause.Tags})
+			}
+			return out
+		}
+	}
+	sv := env.eval(x)
+	if sv == nil || sv.V == nil || len(sv.V.L) != 1 {
+		env.errorf("spec expression %q did not evaluate to a boolean", x.Src)
+		return []namedTerm{{term: "false"}}
+	}
+	return []namedTerm{{term: sv.V.L[0]}}
+}
+
+func (fx *FnExec) evalSpecSplit(x *SExpr, st *State, old *State, loop *loopInfo) []namedTerm {
+	return fx.specEnv(st, old, loop).evalSplit(x)
+}
